@@ -79,9 +79,38 @@ WITNESS = [  # inputs that exhibit each named deviation (document mode unless a 
 ]
 
 
+def sweep_inputs():
+    """boundary sweeps around the loop bounds of the algorithm (adoption agency: outer loop 8, inner loop 3; Noah's ark 3;
+    implied end tags; scope walks): one formatting element closed across k nested blocks / j nested formatting elements"""
+    out = []
+    for fmt in ("b", "a", "nobr", "i"):
+        for blk in ("div", "p", "li", "ul", "section", "button", "blockquote", "td", "object"):
+            for k in range(1, 12):
+                out.append(("<%s>%sx</%s>y" % (fmt, ("<%s>" % blk) * k, fmt), None))
+                if k in (6, 7, 8, 9):
+                    out.append(("<%s>%sx</%s>y" % (fmt, ("<%s>" % blk) * k, fmt), "div"))
+                    out.append(("<table><%s>%sx</%s>y" % (fmt, ("<%s>" % blk) * k, fmt), None))
+        for j in range(0, 7):
+            mids = "".join("<%s>" % m for m in ("i", "u", "s", "em", "tt", "big")[:j])
+            out.append(("<%s>%s<div>x</%s>y" % (fmt, mids, fmt), None))
+            out.append(("<%s>%s<div>%sx</%s>y</div>z" % (fmt, mids, mids, fmt), None))
+            out.append(("<%s><div>%s<p>x</%s>y" % (fmt, mids, fmt), None))
+        for k in range(1, 7):
+            out.append((("<%s>" % fmt) * k + "<p>x</p>y", None))
+            out.append((("<%s>" % fmt) * k + "<object>" + ("<%s>" % fmt) * k + "</object></p>z", None))
+            out.append(("<p>" + ("<%s id=1>" % fmt) * k + ("<%s>" % fmt) * k + "</p>z", None))
+    for k in range(1, 8):
+        out.append(("<ul>" + "<li>" * k + "x</ul>y", None))
+        out.append(("<dl>" + "<dd><dt>" * k + "</dl>y", None))
+        out.append(("<select>" + "<optgroup><option>" * k + "</select>y", None))
+        out.append(("<ruby>" + "<rt><rp>" * k + "</ruby>y", None))
+        out.append(("<table>" + "<tr><td>" * k + "</table>y", None))
+    return out
+
+
 def trace_inputs(ctx, n):
     from .. import corpus
-    docs = [(d, c) for d, c in WITNESS]
+    docs = [(d, c) for d, c in WITNESS] + sweep_inputs()
     rs = [s for s in corpus.repo_strings(200) if len(s) <= 120]
     ctx.rng.shuffle(rs)
     for s_ in rs[: n // 3]:
@@ -194,7 +223,7 @@ T_CORE = ["<b>", "<a>", "<p>", "<div>", "<li>", "<table>", "<tr>", "<td>", "<cap
           "<svg>", "<math>", "<frameset>", "<body>", "<html>", "<head>", "<title>", "<script>", "<textarea>", "<pre>", "<h1>", "<hr>",
           "<object>", "<nobr>", "<dd>", "<rt>", "</b>", "</a>", "</p>", "</div>", "</table>", "</td>", "</select>", "</body>", "</html>",
           "</br>", "</form>", "</object>", "x", " ", "\n", "<!--c-->", "<col>", "<font color=x>", "<image>", "<plaintext>"]
-T_FMT = ["<b>", "<i>", "<a>", "<nobr>", "<b id=1>", "<font>", "<p>", "<div>", "<applet>", "<object>", "<marquee>", "<table>", "<td>", "<button>",
+T_FMT = ["<b>", "<i>", "<a>", "<nobr>", "<b id=1>", "<b x=1 y=2>", "<b y=2 x=1>", "<font>", "<p>", "<div>", "<applet>", "<object>", "<marquee>", "<table>", "<td>", "<button>",
          "</b>", "</i>", "</a>", "</nobr>", "</p>", "</div>", "</applet>", "</object>", "</table>", "</td>", "x", " ", "<li>", "<select>", "</body>",
          "<svg>"]
 
@@ -217,7 +246,7 @@ def cover_tests(ctx, spec_listed):
     q = ctx.quick
     jobs = []
     plans = [("cover", "doc", 3, T_CORE if q else t_all(), 0.08 if q else 1.0),
-             ("cover_afe", "doc", 4 if q else 5, T_FMT, 0.3 if q else 1.0),
+             ("cover_afe", "doc", 4 if q else 5, T_FMT, 0.2 if q else 1.0),
              ("cover", "tableish", 2, T_CORE if q else t_all(), 0.05 if q else 0.5)]
     for theme, cont, n, toks, frac in plans:
         r = ctx.tlc("MC_TreeCover", cover_cfg(theme, cont, n, spec_listed), "cover-%s-%s" % (theme, cont), heap="16g")
@@ -232,7 +261,11 @@ def cover_tests(ctx, spec_listed):
                 for w in ("", "x"):
                     d = base + t + w
                     if not unmodelled(d, cx):
-                        jobs.append((d, cx, False, "dom" if (len(d) + len(t)) % 2 else "etree"))
+                        if theme == "cover_afe":          # the list of active formatting elements compares node attributes: both builders
+                            jobs.append((d, cx, False, "dom"))
+                            jobs.append((d, cx, False, "etree"))
+                        else:
+                            jobs.append((d, cx, False, "dom" if (len(d) + len(t)) % 2 else "etree"))
     return jobs
 
 
@@ -303,6 +336,11 @@ def run(ctx):
     ctx.sample({"code_to_spec": m["raw"], "container": core.ucs(m["cx"]) if m["cx"] != NONE else None,
                 "tree": treeproj.show(m["tree"])[:400]})
     judge_traces(ctx, rows, listed, "trace")
+    # auxiliary: which handler functions of the implementation did the spec-derived and trace inputs reach?
+    from .. import funccov
+    sample = [(j[0], j[1]) for j in cjobs[:: max(1, len(cjobs) // (6000 if q else 40000))]] + [(r["raw"], None if r["cx"] == NONE else core.ucs(r["cx"])) for r in rows[:3000]]
+    cov = funccov.report(sample)
+    ctx.notes["implementation_function_coverage"] = {k: {"reached": v["reached"], "functions": v["functions"], "missed": v["missed"]} for k, v in cov.items()}
 
 
 def replay(case):
